@@ -605,9 +605,13 @@ class SymBool:
     __rxor__ = __xor__
 
     def __eq__(self, o):
+        if isinstance(o, numbers.Integral) and not isinstance(o, bool) or isinstance(o, SymInt):
+            return self._asint() == o
         return self._bin(o, lambda a, b: a == b)
 
     def __ne__(self, o):
+        if isinstance(o, numbers.Integral) and not isinstance(o, bool) or isinstance(o, SymInt):
+            return self._asint() != o
         return self._bin(o, lambda a, b: a != b)
 
     def __invert__(self):
@@ -955,6 +959,9 @@ class Explorer:
     def int(self, name, lo=None, hi=None):
         if name in self.inputs:  # same named input asked again (e.g. by a copy of a lazy object): same variable
             return SymInt({_atom(self.inputs[name]): 1}, 0)
+        if lo is not None and hi is not None and not (lo <= hi):
+            # empty interval (decided by a visible fork when the bounds are symbolic): no such input, the path is dropped
+            raise Assume()
         v = z3.Int(name)
         self.inputs[name] = v
         if lo is not None:
@@ -973,6 +980,8 @@ class Explorer:
     def real(self, name, lo=None, hi=None, lo_strict=False, hi_strict=False):
         if name in self.inputs:
             return SymReal(self.inputs[name])
+        if lo is not None and hi is not None and not ((lo < hi) if (lo_strict or hi_strict) else (lo <= hi)):
+            raise Assume()
         v = z3.Real(name)
         self.inputs[name] = v
         if lo is not None:
@@ -1101,6 +1110,8 @@ class Explorer:
                 self.paths += 1
                 try:
                     fn(self)
+                    if self.pos < len(self.prefix):
+                        raise EngineError('non-deterministic harness: the re-execution ended before its decision prefix was consumed')
                     self.paths_ok += 1
                     if self._path_nontrivial:
                         self.nontrivial_paths += 1
@@ -1124,6 +1135,9 @@ class Explorer:
                         break  # the budget ran out inside foreign code that re-raised differently: inconclusive, not a verdict
                     import traceback
                     tb = traceback.extract_tb(e.__traceback__)
+                    if harness_fault(e, tb):
+                        raise EngineError(f'harness fault, not a verdict: {type(e).__name__}: {e} @ ' +
+                                          '; '.join(f'{f.filename.split("/")[-1]}:{f.lineno}:{f.name}' for f in tb[-3:]))
                     where = '; '.join(f'{f.filename.split("/")[-1]}:{f.lineno}:{f.name}' for f in tb[-4:])
                     try:
                         snap = self.snapshot()
@@ -1153,6 +1167,21 @@ class Explorer:
                     checks_reached=self.checks_reached, checks_symbolic=self.checks_symbolic,
                     nontrivial_paths=self.nontrivial_paths, cover=dict(self.cover_counts),
                     exhausted=self.exhausted, inconclusive=sorted(set(self.inconclusive_reasons)))
+
+
+_HERE = __file__.rsplit('/', 2)[0]  # /verif
+
+
+def harness_fault(e, tb):
+    """an exception born in the harness or its stubs because THEY do not support something (a missing stub method, a private
+    attribute of the code under test that moved, an operator a proxy lacks) is a fault of the machinery, not a violation.
+    Exceptions by which the stubs mimic the library (IndexError of a list, ValueError of numpy's Generator, the failing global
+    generator) are raised on behalf of the code under test and stay violations."""
+    if not tb or not tb[-1].filename.startswith(_HERE):
+        return False
+    if type(e).__name__ in ('GlobalRngTouched',):
+        return False
+    return isinstance(e, (AttributeError, TypeError, NameError, KeyError, NotImplementedError, ImportError, UnboundLocalError))
 
 
 class ReplayMismatch(Exception):
